@@ -19,6 +19,7 @@ exactly as in Go).  A Go panic is `none`.  Core Lean only.
 -/
 import MpcVerif.Model.Circuit
 import MpcVerif.Model.Levels
+import MpcVerif.Model.Equiv
 
 namespace Mpc
 
@@ -334,6 +335,45 @@ def compile (G : Graph) (gmw : Bool) : Option Circuit :=
     let gl := st.assigned.toList.map fun h => (G.emitGate st h, st.level.getD h 0)
     let gl := if gmw then compileSort gl else gl
     some { numWires := st.next, nIn := G.nIn, nOut := G.outputs.length, gates := gl.map Prod.fst }
+
+/-- Inverse of the id assignment (untrusted helper: `compileChecks` validates it). -/
+def mkInv (G : Graph) (st : CState) : Array (Option Nat) :=
+  (List.range G.wires.size).foldl (fun inv w =>
+    match st.ids.getD w none with
+    | some k => inv.setIfInBounds k (some w)
+    | none => inv) (Array.replicate st.next none)
+
+/-- Validation of one run of `Compile` (the breadth-first id assignment is
+not proved complete and injective in general; instead every run is checked):
+* `inv` inverts the id assignment, inputs keep their index;
+* every compiled gate is a live gate whose wires all have ids;
+* the compiled circuit is single-assignment and topologically ordered
+  (`absRun`), and every output id is an input or written by a compiled gate;
+* output wire number `i` has id `numWires - nOut + i`. -/
+def compileChecks (G : Graph) (st : CState) (C : Circuit) : Bool :=
+  let inv := G.mkInv st
+  let hasId := fun w => decide (w < G.wires.size) && (st.ids.getD w none).isSome
+  decide (G.nIn ≤ st.next) && decide (G.outputs.length ≤ st.next) &&
+  ((List.range G.wires.size).all fun w =>
+    match st.ids.getD w none with
+    | some k => decide (k < st.next) && (inv.getD k none == some w)
+    | none => true) &&
+  ((List.range G.nIn).all fun w => st.ids.getD w none == some w) &&
+  (st.assigned.toList.all fun h =>
+    decide (h < G.gates.size) && !(G.gate h).dead && hasId (G.gate h).a &&
+    ((G.gate h).op == .inv || hasId (G.gate h).b) && hasId (G.gate h).o) &&
+  (C.absRun #[]).isSome &&
+  ((List.range G.outputs.length).all fun i =>
+    let k := st.next - G.outputs.length + i
+    decide (G.outputs.getD i 0 < G.wires.size) && (st.ids.getD (G.outputs.getD i 0) none == some k) &&
+    (decide (k < G.nIn) || C.gates.any fun g => g.out == k))
+
+/-- `Compile` with its run validated; this is what the tie compares with the
+real `Compiler.Compile` output (gate for gate, same wire ids). -/
+def compileChecked (G : Graph) (gmw : Bool) : Option Circuit :=
+  match G.compileState, G.compile gmw with
+  | some st, some C => if G.compileChecks st C then some C else none
+  | _, _ => none
 
 /-! ### Semantics of a builder-level graph -/
 
